@@ -26,7 +26,7 @@ theorem add_success (t : Node) (hwf : TreeWf (upOf u) t) (p : List String) (hlp 
     cases hn
     obtain ⟨hd, hch⟩ := (all_dir _ s ch).1 (all_getAtS _ p t _ hwf hg)
     refine ⟨?_, rfl⟩
-    rw [addEntry_dir]
+    rw [addEntry_dir hd.wf.shape _ sfn child ch h1 h255 hu hnz hsfn]
     refine (all_dir _ _ _).2 ⟨(addEntry_dirOk hd _ sfn child hwf' h1 h255 hu hnz hsfn hkind).1, ?_⟩
     intro x hx
     rcases List.mem_append.1 hx with hx | hx
@@ -34,10 +34,11 @@ theorem add_success (t : Node) (hwf : TreeWf (upOf u) t) (p : List String) (hlp 
     · simp only [List.mem_singleton] at hx
       rw [hx]; exact hchild
   · apply abs_updS u _ _ p t hwf hlp
-    intro n _
-    apply abs_addEntry
-    intro s' c' _
-    exact entryName_new name sfn _ _ hv
+    intro n hn
+    rw [hg] at hn
+    cases hn
+    have hd : DirOk (upOf u) s ch := ((all_dir _ s ch).1 (all_getAtS _ p t _ hwf hg)).1
+    exact abs_addEntry hd.wf.shape _ sfn child ch name h1 h255 hu hnz hsfn (entryName_new name sfn _ _ hv)
 
 /-! ## deleting an entry at a path -/
 
